@@ -15,6 +15,15 @@ type TarWriter struct {
 	format gnutar.Format
 }
 
+// formatFor returns the header format for an entry. Extended attributes need a
+// PAX header, archive/tar refuses them in a GNU one; GNU tar reads both.
+func (fs TarWriter) formatFor(xattrs map[string]string) gnutar.Format {
+	if len(xattrs) > 0 {
+		return gnutar.FormatPAX
+	}
+	return fs.format
+}
+
 var _ FilesystemWriter = TarWriter{}
 
 // NewTarFS initializes a new instance of a GNU tar archive that can be used
@@ -32,7 +41,7 @@ func (fs TarWriter) CreateDir(n NodeDirectory) error {
 		Mode:     int64(n.Mode),
 		ModTime:  n.MTime,
 		Xattrs:   n.Xattrs,
-		Format:   fs.format,
+		Format:   fs.formatFor(n.Xattrs),
 	}
 	return fs.w.WriteHeader(hdr)
 }
@@ -47,7 +56,7 @@ func (fs TarWriter) CreateFile(n NodeFile) error {
 		ModTime:  n.MTime,
 		Size:     int64(n.Size),
 		Xattrs:   n.Xattrs,
-		Format:   fs.format,
+		Format:   fs.formatFor(n.Xattrs),
 	}
 	if err := fs.w.WriteHeader(hdr); err != nil {
 		return err
@@ -66,7 +75,7 @@ func (fs TarWriter) CreateSymlink(n NodeSymlink) error {
 		Mode:     int64(n.Mode),
 		ModTime:  n.MTime,
 		Xattrs:   n.Xattrs,
-		Format:   fs.format,
+		Format:   fs.formatFor(n.Xattrs),
 	}
 	return fs.w.WriteHeader(hdr)
 }
